@@ -111,6 +111,7 @@ fn main() {
                 phys::huge(dir, ops, imp)
             } else {
                 let cfg = phys::PhysCfg {
+                    many_entries: args.iter().any(|a| a == "--many-entries"),
                     mini_churn: args.iter().any(|a| a == "--mini-churn"),
                     setlen_heavy: args.iter().any(|a| a == "--setlen-heavy"),
                     cycles: !args.iter().any(|a| a == "--no-cycles"),
